@@ -1,5 +1,5 @@
 (* The zoom parts of the two real write paths never produce more than MAX_ZOOM_LEVELS = 10 levels
-   (after /repo adc453b), so the zoom directory fits between the 64-byte header and the autoSql at
+   (after /repo 3a3ac98), so the zoom directory fits between the 64-byte header and the autoSql at
    offset 304 and the file-level theorems apply to bb_write / bb_write_multipass unconditionally. *)
 From BT Require Import Base.Util Base.LE Base.Float Generated.Consts Model.RTree Model.BBIFile Model.BigWigWrite Model.BBIRead
   Model.BigBedWrite Model.BBIReadBed Proofs.RTreeCodec Proofs.BedQuery Proofs.BedEndToEnd.
